@@ -98,6 +98,72 @@ func Run(j *job.Job, s *job.Sink) {
 		var mods []*mod
 		var all []*ident
 		namePool := []string{"a", "b", "c", "d", "e", "f", "g", "h"}
+		if c%200 == 7 {
+			// a long derivation chain (130-500 identities, spread over two modules): every
+			// identity lists exactly the ones below it, however deep that is
+			n := 130 + r.Intn(371)
+			cut := 1 + r.Intn(n-1)
+			var a, b strings.Builder
+			a.WriteString("module chaina { yang-version 1.1; namespace \"urn:chaina\"; prefix ca;\n")
+			b.WriteString("module chainb { yang-version 1.1; namespace \"urn:chainb\"; prefix cb; import chaina { prefix ca; }\n")
+			for k := 0; k < n; k++ {
+				w, pfx := &a, ""
+				if k >= cut {
+					w = &b
+					if k == cut {
+						pfx = "ca:"
+					}
+				}
+				if k == 0 {
+					fmt.Fprintf(w, "  identity ID%04d;\n", k)
+				} else {
+					fmt.Fprintf(w, "  identity ID%04d { base %sID%04d; }\n", k, pfx, k-1)
+				}
+			}
+			a.WriteString("  leaf top { type identityref { base ID0000; } }\n}\n")
+			b.WriteString("}\n")
+			cs := []map[string]string{{"name": "chaina.yang", "text": a.String()[:min(len(a.String()), 400)] + "..."}, {"name": "chainb.yang", "text": "(continues the chain)"}, {"name": "length", "text": fmt.Sprint(n)}}
+			s.Current(c, cs)
+			s.Count("graphs", 1)
+			s.Count("long_chains", 1)
+			s.Count("nontrivial", 1)
+			for rep := 0; rep < 2; rep++ {
+				ms := yang.NewModules()
+				texts := []struct{ n, t string }{{"chaina.yang", a.String()}, {"chainb.yang", b.String()}}
+				if rep == 1 {
+					texts[0], texts[1] = texts[1], texts[0]
+				}
+				ok := true
+				for _, t := range texts {
+					if err := ms.Parse(t.t, t.n); err != nil {
+						ok = false
+					}
+				}
+				if errs := ms.Process(); !ok || len(errs) > 0 {
+					s.Violation(c, j.CaseID(c), "C11.closure", "spurious-error", fmt.Sprintf("chain of %d identities: %v", n, errs), cs, nil)
+					break
+				}
+				wrong := ""
+				for _, mn := range []string{"chaina", "chainb"} {
+					for _, id := range yang.ToEntry(ms.Modules[mn]).Identities {
+						var k int
+						fmt.Sscanf(id.Name, "ID%d", &k)
+						s.Count("identity_checks", 1)
+						if len(id.Values) != n-1-k && wrong == "" {
+							wrong = fmt.Sprintf("%s lists %d derived identities, the chain below it has %d", id.Name, len(id.Values), n-1-k)
+						}
+					}
+				}
+				if top := yang.ToEntry(ms.Modules["chaina"]).Dir["top"]; top == nil || top.Type == nil || top.Type.IdentityBase == nil || len(top.Type.IdentityBase.Values) != n-1 {
+					wrong = "the identityref on the top of the chain does not see all " + fmt.Sprint(n-1) + " derived identities"
+				}
+				if wrong != "" {
+					s.Violation(c, j.CaseID(c), "C11.closure", "closure", fmt.Sprintf("chain of %d identities: %s", n, wrong), cs, nil)
+					break
+				}
+			}
+			continue
+		}
 		nm := 1 + r.Intn(4)
 		nameOf := r.Perm(nm)
 		for i := 0; i < nm; i++ {
